@@ -13,6 +13,7 @@ EXTENDS Naturals, FiniteSets, Sequences, TLC
 
 CONSTANTS VMs,        \* vm names
           StatesOf,   \* [VMs -> set of state names]
+          Addressable,\* [VMs -> states that can be named in a request: the tool names a state by the setup test producing it]
           Dep,        \* [VMs -> set of <<derived state, state it starts from>>]
           Workers,    \* set of worker-count choices, e.g. {1, 2}
           Bogus       \* an unknown state name
@@ -27,7 +28,7 @@ Descendants(v, s) == {x \in StatesOf[v] : s \in Ancestors(v, x)}
 ValidPair(v, f, t) == f \in StatesOf[v] /\ t \in StatesOf[v] /\ (f = t \/ f \in Ancestors(v, t))
 Path(v, f, t) == {s \in Ancestors(v, t) \cup {t} : s = f \/ f \in Ancestors(v, s)}
 
-Requests == [VMs -> {<<"-", "-">>} \cup UNION {{<<f, t>> : f \in StatesOf[v] \cup {Bogus}, t \in StatesOf[v] \cup {Bogus}} : v \in VMs}]
+Requests == [VMs -> {<<"-", "-">>} \cup UNION {{<<f, t>> : f \in Addressable[v] \cup {Bogus}, t \in Addressable[v] \cup {Bogus}} : v \in VMs}]
 
 VARIABLES req, nworkers, out, pc
 vars == <<req, nworkers, out, pc>>
@@ -35,7 +36,7 @@ Selected(r) == {v \in VMs : r[v] # <<"-", "-">>}
 
 Init == /\ req \in Requests
         /\ Selected(req) # {}
-        /\ \A v \in Selected(req) : /\ req[v][1] \in StatesOf[v] \cup {Bogus} /\ req[v][2] \in StatesOf[v] \cup {Bogus}
+        /\ \A v \in Selected(req) : /\ req[v][1] \in Addressable[v] \cup {Bogus} /\ req[v][2] \in Addressable[v] \cup {Bogus}
                                     /\ (req[v][1] = Bogus \/ req[v][2] = Bogus \/ ValidPair(v, req[v][1], req[v][2]))
         \* at most one unknown state per request keeps the enumeration small
         /\ Cardinality({v \in Selected(req) : Bogus \in {req[v][1], req[v][2]}}) <= 1
